@@ -66,7 +66,7 @@ type TxSpec struct {
 	Data     []byte    `json:"data,omitempty"`
 	BadChain bool      `json:"bad_chain,omitempty"`
 	CheckSig bool      `json:"check_sig"`
-	Sign     string    `json:"sign"` // ok | bad (valid signature over another digest) | other (valid signature by another key)
+	Sign     string    `json:"sign"` // ok | bad (valid signature over another digest) | other (valid signature by another key) | drop-last / drop-first (valid signature by a strict subset of the carried keys)
 	Note     string    `json:"note,omitempty"`
 }
 type CtxSpec struct {
@@ -282,6 +282,18 @@ func buildTxs(s *Scenario, keys []keyInfo, r *hlib.Rng) [][]*builtTx {
 				d2 := digest
 				d2[0] ^= 1
 				qt.Signature = signQi(r, d2, signKeys)
+			case "drop-last", "drop-first":
+				// a valid signature over the right digest made by a STRICT SUBSET of the carried keys
+				// (the holder of some of the keys signs alone); with a single input: by a foreign key
+				sub := signKeys
+				if len(sub) >= 2 && ts.Sign == "drop-last" {
+					sub = sub[:len(sub)-1]
+				} else if len(sub) >= 2 {
+					sub = sub[1:]
+				} else {
+					sub = []keyInfo{mkKey(bytes.Repeat([]byte{0x11}, 32))}
+				}
+				qt.Signature = signQi(r, digest, sub)
 			default: // "other": signed by a key that is not carried by the inputs
 				other := mkKey(bytes.Repeat([]byte{0x11}, 32))
 				qt.Signature = signQi(r, digest, []keyInfo{other})
